@@ -248,7 +248,7 @@ class Judge:
     def __init__(self, ctx, binary):
         import threading
         self.ctx, self.binary, self.lock = ctx, binary, threading.Lock()
-        self.seen, self.reported, self.drift = set(), {}, 0
+        self.seen, self.reported, self.drift, self.unreproduced = set(), {}, 0, []
 
     def run(self, mode, cases, tag, nmax=30000):
         ctx = self.ctx
@@ -312,7 +312,22 @@ class Judge:
                 reproduced = (ev, rej)
                 break
         if not reproduced:
-            raise Broken("rejection not reproduced (%s level): %s" % (mode, json.dumps(w)[:1500]))
+            # not reproducible from the transaction alone: the selection may depend on the lookups made before it on the
+            # same tree (state carried between transactions) - re-run the whole originating case, same order of transactions
+            whole = next((c for c in cases if c.get("flows") == rs["flows"] and c.get("orders") == rs["orders"]), None)
+            if whole is not None:
+                for attempt in range(1 if mode == "tree" else 20):
+                    ev = execute(ctx, self.binary, mode, [whole], "repro")
+                    rej, _, _ = tlc_judge(ctx, ev, "repro")
+                    if rej:
+                        reproduced = (ev, rej)
+                        single = whole
+                        w["history_dependent"] = True
+                        break
+        if not reproduced:
+            # decided at the end of the run: exit 2 only when no rejection at all could be reproduced
+            self.unreproduced.append("rejection not reproduced (%s level): %s" % (mode, json.dumps(w)[:1500]))
+            return
         self.reported[w["class"]] = self.reported.get(w["class"], 0) + 1
         ctx.violation(w, {"mode": mode, "case": single, "trace": reproduced[0]})
 
@@ -457,6 +472,11 @@ def run(ctx):
     if judge.drift:
         ctx.cov["model_drift"] = True
         ctx.notes.append("%d events on which the real code differs from FilterTreeI (property judged by FilterP only)" % judge.drift)
+
+    if judge.unreproduced:
+        if not ctx.violations and not ctx.known_hits:
+            raise Broken(judge.unreproduced[0])
+        ctx.notes.append("%d further rejections could not be reproduced on a re-run (first: %s)" % (len(judge.unreproduced), judge.unreproduced[0][:300]))
 
     # (4) binding self-test (thorough): corrupted recordings must be rejected by the trace spec
     if T:
